@@ -49,7 +49,7 @@ class Arr(list):
 
 KINDS = ['assign', 'print', 'print2', 'expr', 'printexpr', 'none', 'multi', 'compound', 'def', 'semicolon', 'expr_wild', 'expr_arr']
 # the richer statement grammar of the C01 program generator (C01, C18, C19, C20)
-MORE_KINDS = ['await_expr', 'unawaited_coro', 'esc_literal', 'augassign', 'for', 'while', 'with', 'try', 'decodef', 'class', 'literal_comment', 'triple', 'triple_unprefixed', 'triple_blank', 'triple_trailing_ws', 'triple_late_unprefixed',
+MORE_KINDS = ['await_expr', 'unawaited_coro', 'esc_literal', 'augassign', 'for', 'while', 'with', 'try', 'decodef', 'class', 'literal_comment', 'triple', 'triple_unprefixed', 'triple_blank', 'triple_unprefixed_blank', 'bracket_blank', 'triple_trailing_ws', 'triple_late_unprefixed',
               'import', 'comment', 'async_await', 'async_for', 'async_with']
 ALL_KINDS = KINDS + MORE_KINDS
 
@@ -136,6 +136,18 @@ class Stmt:
             self.lines = ["s%d = t(%d) and '''first" % (k, k), '', "  third %d'''" % k, "print(len(s%d.split(chr(10))))" % k]
             self.starts = [0, 3]
             self.out = '3\n'
+        elif kind == 'triple_unprefixed_blank':
+            # a completely empty physical line inside a multi-line string whose further lines carry no prompt (a paragraph break)
+            self.lines = ["s%d = t(%d) and '''first" % (k, k), '', "  third %d'''" % k, "print(len(s%d.split(chr(10))))" % k]
+            self.unprefixed = [1, 2]
+            self.starts = [0, 3]
+            self.out = '3\n'
+        elif kind == 'bracket_blank':
+            # an empty physical line inside an open bracket
+            self.lines = ['b%d = [t(%d),' % (k, k), '', '       %d]' % k, 'print(len(b%d))' % k]
+            self.unprefixed = [1]
+            self.starts = [0, 3]
+            self.out = '2\n'
         elif kind == 'triple_late_unprefixed':
             # the string opens on a continuation line of the statement; its further lines carry no prompt
             self.lines = ['z%d = "{}|{}".format(t(%d),' % (k, k), "    '''first", '  body %d' % k, " - leaf", "last''')"]
